@@ -157,12 +157,14 @@ for _p, (_lvl, _txt, _note) in LEVELS.items():
     CHECKS[_p]["level_text"] = _txt
     CHECKS[_p]["level_note"] = _note
     CHECKS[_p]["lean"] = True
-for _p in ("C06", "C07", "C12", "C13"):
+CHECKS["C05"]["proof"] = True
+for _p in ("C05", "C06", "C07", "C12", "C13"):
     CHECKS[_p]["level_text"] = ("Bounded stand-in of the contract, PLUS proved obligations for part of the functions the property depends on "
                                 "(reported in evidence.coverage.obligations/functions_under_contract; not claimed as a proof of the whole property): ") + CHECKS[_p]["level_text"]
 
 # in-memory mutants run by the thorough tier (vacuity guard for the contracts; reported in evidence, no verdict)
 MUTANTS = {
+    "C05": [("C05/limit_fanout[structure]", "limit_fanout"), ("C05/limit_fanin[structure]", "limit_fanin")],
     "C07": [("C07/connect", "Circuit.connect"), ("layer1/Circuit.connect", "Circuit.connect"), ("C07/fill_blackbox on the body", "Circuit.fill_blackbox"),
             ("C07/add_blackbox[connections] on the body", "Circuit.add_blackbox"), ("C07/add_subcircuit[connections] on the body", "Circuit.add_subcircuit")],
     "C06": [("layer2/add_subcircuit[no connections]", "Circuit.add_subcircuit"), ("layer2/add_blackbox[no connections]", "Circuit.add_blackbox")],
@@ -170,7 +172,7 @@ MUTANTS = {
     "C04": [("C04/miter[pair,explicit]", "miter")],
     "C01": [("C01/cnf", "cnf")],
     "C12": [("layer1/Circuit.fanin", "Circuit.fanin"), ("layer1/Circuit.startpoints", "Circuit.startpoints")],
-    "C13": [("C13/clog2", "clog2")],
+    "C13": [("C13/half_adder", "half_adder"), ("C13/full_adder", "full_adder")],
     "C20": [("C20/lint", "lint")],
 }
 for _p, _m in MUTANTS.items():
